@@ -195,7 +195,9 @@ def run_case(case, ctx):
                 # position independence: an uncached copy of the pointer dereferenced while the stream stands at the
                 # pointer's own address, just behind the target, at 0 and at the end
                 for pos in (addr, min(addr + 1, len(image)), 0, len(image)):
-                    fresh = p + 0
+                    fresh = lib(lambda: p + 0)
+                    if not isinstance(fresh, m.Pointer):
+                        raise Violation("pointer-arithmetic", f"{what}: p + 0 is {fresh!r}, not a pointer: {desc(what)}")
                     stream.seek(pos)
                     rr = lib(fresh.dereference)
                     if isinstance(rr, Err) or libside.cplain(rr) != libside.cplain(r):
